@@ -22,6 +22,9 @@ import (
 //
 //go:norace
 func (g *Engine) Start() error {
+	g.mux.Lock()
+	g.stopping = false
+	g.mux.Unlock()
 	// Create listener pollers.
 	udpListeners := make([]*net.UDPConn, len(g.Addrs))[0:0]
 	switch g.Network {
